@@ -78,6 +78,17 @@ Theorem C11_tail_ctx_first :
   (forall done pending, runfunc_tail false done pending = (if pending then 2%N else 0%N)).
 Proof. exact (conj tail_ctx_first (conj tail_own tail_no_ctx)). Qed.
 
+(* the same statements with the fourth condition of the repaired code (fix: a
+   panic not recovered in a goroutine was dropped): when a goroutine started by
+   a go statement has ended with an error, env.done is set and runFunc returns
+   that error (code 3) whatever the context and the pending panic are; when no
+   goroutine has failed the table is the one above *)
+Theorem C11_tail_goroutine_failure_first :
+  (forall has_ctx pending, runfunc_tail_g true has_ctx true pending = 3%N) /\
+  (forall has_ctx done pending, runfunc_tail_g false has_ctx done pending = runfunc_tail has_ctx done pending).
+Proof. exact (conj tail_goroutine_failure_first tail_no_failure). Qed.
+Print Assumptions C11_tail_goroutine_failure_first.
+
 (* cancellation while a deferred function started by an unrecovered panic is
    blocked (receive, select) or loops: the context error, not the PanicError;
    without cancellation the PanicError *)
